@@ -270,6 +270,15 @@ func ruleWhoWritesTables(w *World, r *Report, rSingle, rCache string, la *LockAn
 	closeS := w.MustFn(w.Godi, "(*scope).Close")
 	accesses := collectAccesses(w, la, func(v *types.Var) bool { return v == ro.singletons || v == ro.cache })
 	n := 0
+	// the storing functions and their private halves: the only doors into the instance tables
+	doors := map[*FuncInfo]string{}
+	if ro.setInstance != nil {
+		doors[ro.setInstance] = "setInstance"
+	}
+	if ro.setSingleton != nil {
+		doors[ro.setSingleton] = "setSingleton"
+	}
+	doors = w.HelperClosure(doors)
 	for _, a := range accesses {
 		fi := a.Unit.fi
 		switch a.Field {
@@ -299,8 +308,9 @@ func ruleWhoWritesTables(w *World, r *Report, rSingle, rCache string, la *LockAn
 			con := fmt.Sprintf("%s#singletons.%s/%d", fi.Name(), m, n)
 			switch m {
 			case "Store", "LoadOrStore", "Swap", "CompareAndSwap":
-				okW := fi == ro.setSingleton || onlyFromSingletonPaths(w, ro, fi, 3)
-				r.Check(okW, rSingle, con, a.Pos(), false, "the singleton table is written only by setSingleton (or its private caching half, reached under Lifetime == Singleton only)", "the singleton table is written in "+fi.Name()+" (only setSingleton, reached from setInstance's Singleton clause, may store singletons)")
+				_, door := doors[fi]
+				okW := fi == ro.setSingleton || (door && onlyFromSingletonPaths(w, ro, fi, 3))
+				r.Check(okW, rSingle, con, a.Pos(), false, "the singleton table is written only by setSingleton (or its private caching half, reached under Lifetime == Singleton only)", "the singleton table is written in "+fi.Name()+" (only setSingleton and its private halves, reached from setInstance's Singleton clause, may store singletons: an instance that enters the table by another door was not produced for the descriptor it is filed under)")
 			case "Delete", "LoadAndDelete", "Clear", "CompareAndDelete":
 				r.Check(fi == closeP || isHelperOfClose(w, fi), rSingle, con, a.Pos(), false, "singletons are removed only by the provider's Close", "a singleton is removed from the table in "+fi.Name()+", outside the provider's Close: a later resolution fails or a new instance appears")
 			default:
@@ -315,8 +325,9 @@ func ruleWhoWritesTables(w *World, r *Report, rSingle, rCache string, la *LockAn
 			switch {
 			case a.Kind == "index-write":
 				// only when setInstance dispatches to Scoped (in its body or in a private helper called from there)
-				ok := onlyUnderLifetime(w, ro, fi, a.Pos(), "Scoped", 3)
-				r.Check(ok, rCache, con, a.Pos(), true, "the scoped cache is filled only in the Scoped clause of setInstance", "the scoped cache is written in "+fi.Name()+" outside the Scoped clause of setInstance")
+				_, door := doors[fi]
+				ok := door && onlyUnderLifetime(w, ro, fi, a.Pos(), "Scoped", 3)
+				r.Check(ok, rCache, con, a.Pos(), true, "the scoped cache is filled only in the Scoped clause of setInstance", "the scoped cache is written in "+fi.Name()+", not by setInstance (or a private half of it) under Lifetime == Scoped: an instance that enters the cache by another door was not produced for the descriptor it is filed under")
 			case a.Kind == "write":
 				// whole-map assignment: fresh make, nil
 				val := ""
@@ -1424,7 +1435,7 @@ func ruleArgsPerInvocation(w *World, r *Report, rule string) {
 // rules under another rule id.
 func reexportC07(w *World, r *Report, rule string, ids ...string) {
 	sub := NewReport(r.Prop, r.Tier, w)
-	for _, id := range []string{"R07.1", "R07.2", "R07.3", "R07.4", "R07.5", "R07.6", "R07.7", "R07.8", "R07.9"} {
+	for _, id := range []string{"R07.1", "R07.2", "R07.3", "R07.4", "R07.5", "R07.6", "R07.7", "R07.8", "R07.9", "R07.10", "R07.11"} {
 		sub.Rule(id, 0, "")
 	}
 	checkC07(w, sub)
@@ -1441,7 +1452,7 @@ func reexportC07(w *World, r *Report, rule string, ids ...string) {
 // ruleLifetimeTableComplete re-exports the table-before-checks part of C07 for C06.
 func ruleLifetimeTableComplete(w *World, r *Report, rule string) {
 	sub := NewReport(r.Prop, r.Tier, w)
-	for _, id := range []string{"R07.1", "R07.2", "R07.3", "R07.4", "R07.5", "R07.6", "R07.7", "R07.8", "R07.9"} {
+	for _, id := range []string{"R07.1", "R07.2", "R07.3", "R07.4", "R07.5", "R07.6", "R07.7", "R07.8", "R07.9", "R07.10", "R07.11"} {
 		sub.Rule(id, 0, "")
 	}
 	checkC07(w, sub)
